@@ -61,6 +61,23 @@ func main() {
 		Plan:            plan,
 		Child:           child,
 		RaceIsViolation: true,
+		ClassifyDeath: func(c *ev.Check, o *run.Outcome) bool {
+			// test-mode servers panic by design after 120 s of life; the children end every
+			// instance after ~45 s, so this only happens when the machine is starved of CPU
+			// Either way nothing is concluded from that batch: it is discarded and
+			// counted; Post turns the run inconclusive if too many were lost.
+			if strings.Contains(o.Stderr, "server lived for longer than 120 seconds") {
+				c.AddCounter("batches_discarded.server_life_limit", 1)
+				c.Note("batch %d (%s) discarded: a test-mode server reached its built-in 120 s life limit (machine overloaded)", o.Batch.Index, o.Batch.Kind)
+				return true
+			}
+			if o.TimedOut && o.Batch.Kind == "conc" {
+				c.AddCounter("batches_discarded.watchdog", 1)
+				c.Note("batch %d (%s) discarded: wall-clock watchdog (machine overloaded); last ops: %v", o.Batch.Index, o.Batch.Kind, o.OplogTail)
+				return true
+			}
+			return false
+		},
 		Post: func(c *ev.Check, outs []*run.Outcome) {
 			for _, k := range []string{"archives_verified", "gap.cases_200", "gap.bursts_effective", "gapreg.cases_200", "gapreg.empty_key_archives",
 				"conc.archives_with_concurrent_append", "conc.runs", "rate.decisive_bursts", "rate.status_200", "rate.status_429",
@@ -75,6 +92,22 @@ func main() {
 				c.Require("gap.effective."+bu, 6)
 			}
 			c.Require("gapreg.effective", 4)
+			c.Require("conc.rotations", 1)
+			// a few concurrent runs lost to an overloaded machine do not change what the
+			// others showed; many lost runs do
+			planned := 0
+			for _, o := range outs {
+				if o.Batch.Kind == "conc" {
+					planned++
+				}
+			}
+			lost := c.Counter("batches_discarded.server_life_limit") + c.Counter("batches_discarded.watchdog")
+			if planned > 0 {
+				c.Require("conc.runs", int64(planned-planned/10))
+			}
+			if lost*10 > int64(len(outs)) {
+				c.Inconc(fmt.Sprintf("%d of %d batches were lost to watchdogs (machine overloaded)", lost, len(outs)))
+			}
 		},
 	})
 }
@@ -92,13 +125,15 @@ func plan(tier string, seed int64) []run.Batch {
 			bs = append(bs, b)
 		}
 	}
-	reps, concChildren, runsPer, ratePlain, rateRace, statsAppend := 1, 10, 2, 2, 1, 2
+	// one concurrent run per child: a child that is lost to the watchdog on an
+	// overloaded machine then costs one run, not a whole series
+	reps, concChildren, runsPer, ratePlain, rateRace, statsAppend := 1, 20, 1, 2, 1, 2
 	if tier == "thorough" {
-		reps, concChildren, runsPer, ratePlain, rateRace, statsAppend = 4, 60, 10, 8, 2, 12
+		reps, concChildren, runsPer, ratePlain, rateRace, statsAppend = 4, 600, 1, 8, 2, 12
 	}
 	// concurrent batches first: they are the long ones
 	for i := 0; i < concChildren; i++ {
-		add(run.Batch{Kind: "conc", Variant: "race", N: runsPer, TimeoutS: 170, Params: map[string]string{"runs": fmt.Sprint(runsPer)}})
+		add(run.Batch{Kind: "conc", Variant: "race", N: runsPer, TimeoutS: 60 + 70*runsPer, Params: map[string]string{"runs": fmt.Sprint(runsPer)}})
 	}
 	for rep := 0; rep < reps; rep++ {
 		for _, st := range []string{"fresh", "rotated", "restarted"} {
@@ -469,7 +504,7 @@ type fetcher struct {
 
 func newFetcher(port uint16) *fetcher {
 	return &fetcher{
-		hc:   &http.Client{Timeout: 40 * time.Second, Transport: &http.Transport{MaxIdleConnsPerHost: 64, IdleConnTimeout: 5 * time.Second}},
+		hc:   &http.Client{Timeout: 40 * time.Second, Transport: &http.Transport{MaxIdleConnsPerHost: 64, IdleConnTimeout: 1 * time.Second}}, // below the test server's 2.5 s keep-alive limit
 		url:  fmt.Sprintf("http://127.0.0.1:%d/api/v1/archive", port),
 		base: time.Now(),
 	}
@@ -574,6 +609,50 @@ func pickSlot(rng *rand.Rand, now, offset uint32) uint32 {
 	return uint32(lo + rng.Int63n(hi-lo+1))
 }
 
+// serverLife is how long a child keeps one server instance busy (test-mode
+// servers panic by design after 120 s).
+const serverLife = 45 * time.Second
+
+// newWorld starts a registered server; a start that fails on a transport
+// error (overloaded machine: the server's 2.5 s read timeout) is retried on a
+// fresh directory.
+func newWorld(dir string, rng *rand.Rand) (w *drv.World, err error) {
+	for i := 0; i < 3; i++ {
+		if w, err = drv.NewWorld(dir, rng); err == nil {
+			return w, nil
+		}
+		os.RemoveAll(dir)
+		time.Sleep(200 * time.Millisecond)
+	}
+	return nil, err
+}
+
+// authorize posts an authorization; transport errors are retried (the request
+// is idempotent: an exact duplicate is a no-op, a conflict that was already
+// applied is refused). Under heavy CPU load the server's 2.5 s read timeout
+// resets connections.
+func authorize(e *drv.Srv, a refenc.Auth) (st int, body []byte, err error) {
+	for i := 0; i < 6; i++ {
+		if st, body, err = e.Authorize(a); err == nil {
+			return
+		}
+		time.Sleep(50 * time.Millisecond)
+	}
+	return
+}
+
+func addDevice(w *drv.World, rng *rand.Rand, id uint32) (*drv.Dev, error) {
+	k := refenc.GenKey(rng)
+	a := mkAuth(rng, w.GCA, id, k.Pub)
+	st, body, err := authorize(w.Srv, a)
+	if err != nil || st != 200 {
+		return nil, fmt.Errorf("authorization of device %d failed: status %d err %v body %.100s", id, st, err, body)
+	}
+	d := &drv.Dev{ID: id, Key: k, Auth: a}
+	w.Devs[id] = d
+	return d, nil
+}
+
 func mkAuth(rng *rand.Rand, gca refenc.Key, id uint32, pub [32]byte) refenc.Auth {
 	a := refenc.Auth{ID: id, Pub: pub, Lat: float64(rng.Intn(120) - 60), Long: float64(rng.Intn(300) - 150), Capacity: uint64(100000 + rng.Intn(100000)),
 		Debt: uint64(rng.Intn(1000)), Expiration: 100000 + uint32(rng.Intn(1000)), Initialization: uint32(rng.Intn(100)), Fee: uint64(rng.Intn(100000))}
@@ -612,7 +691,7 @@ func (w *gapWorld) offset() uint32 { return w.S.VerifSnapshot(false).Offset }
 // newDevice authorizes a fresh device and delivers n reports for it.
 func (w *gapWorld) newDevice(n int) (*drv.Dev, []refenc.Report, error) {
 	w.nextID += 1 + uint32(w.rng.Intn(5))
-	d, err := w.AddDevice(w.nextID, uint64(100000+w.rng.Intn(100000)))
+	d, err := addDevice(w.World, w.rng, w.nextID)
 	if err != nil {
 		return nil, nil, err
 	}
@@ -669,7 +748,7 @@ func (w *gapWorld) runCase(state string, gap int, burst string) bool {
 		}
 		vic = victim{d, reps[w.rng.Intn(len(reps))]}
 	}
-	var fired, effective atomic.Bool
+	var fired, effective, overload atomic.Bool
 	var note atomic.Value
 	hookFn.Store(func(g int) {
 		if g != gap || fired.Swap(true) {
@@ -682,11 +761,15 @@ func (w *gapWorld) runCase(state string, gap int, burst string) bool {
 				note.Store(err.Error())
 			}
 		case "rotation":
-			if n := w.rotate(); n != 1 {
+			if n := w.rotate(); n < 0 {
+				overload.Store(true)
+			} else if n != 1 {
 				note.Store(fmt.Sprintf("StepRotation performed %d rotations", n))
 			}
 		case "ban":
-			if st, err := w.BanDevice(vic.dev.ID); err != nil || st == 200 {
+			a := vic.dev.Auth
+			a.Debt++
+			if st, _, err := authorize(w.Srv, a.Signed(w.GCA.Priv)); err != nil || st == 200 {
 				note.Store(fmt.Sprintf("conflicting authorization answered %d %v", st, err))
 			}
 		case "equivocate":
@@ -732,6 +815,8 @@ func (w *gapWorld) runCase(state string, gap int, burst string) bool {
 		w.r.Count("gap.bursts_effective", 1)
 		w.r.Count("gap.effective."+burst, 1)
 		w.r.Nontrivial(fmt.Sprintf("gap/%s/%d/%s/%d", state, gap, burst, w.b.Seed))
+	} else if overload.Load() {
+		w.r.Count("gap.rotation_step_watchdog", 1) // driver watchdog on an overloaded machine; Post requires enough effective cases
 	} else {
 		s, _ := note.Load().(string)
 		w.r.Inconc(fmt.Sprintf("burst %s in gap %d had no effect on the files (%s)", burst, gap, s))
@@ -764,7 +849,8 @@ func childGap(b run.Batch, r *ev.Result) {
 	drv.GateImpact(true)
 	installGapHook()
 	dir := filepath.Join(b.Dir, "srv")
-	dw, err := drv.NewWorld(dir, rng)
+	born := time.Now()
+	dw, err := newWorld(dir, rng)
 	if err != nil {
 		r.Inconc("cannot start world: " + err.Error())
 		return
@@ -789,7 +875,10 @@ func childGap(b run.Batch, r *ev.Result) {
 	}
 	if state == "rotated" || state == "restarted" {
 		for i := 0; i < 1+rng.Intn(2); i++ {
-			if n := w.rotate(); n != 1 {
+			if n := w.rotate(); n < 0 {
+				r.Count("gap.rotation_step_watchdog", 1) // overloaded machine: this child contributes nothing, Post requires enough cases from the others
+				return
+			} else if n != 1 {
 				r.Inconc(fmt.Sprintf("set-up rotation did not happen (%d)", n))
 				return
 			}
@@ -805,6 +894,7 @@ func childGap(b run.Batch, r *ev.Result) {
 			r.Inconc("restart failed: " + err.Error())
 			return
 		}
+		born = time.Now()
 	}
 	w.f = newFetcher(w.HTTP)
 	defer w.f.close()
@@ -820,7 +910,11 @@ func childGap(b run.Batch, r *ev.Result) {
 		}
 	}
 	rng.Shuffle(len(cases), func(i, j int) { cases[i], cases[j] = cases[j], cases[i] })
-	for _, c := range cases {
+	for i, c := range cases {
+		if time.Since(born) > serverLife {
+			r.Count("gap.cases_skipped_server_life_limit", int64(len(cases)-i))
+			break
+		}
 		w.runCase(state, c.gap, c.burst)
 		if r.NumViolations() > 20 {
 			break
@@ -889,8 +983,17 @@ func childGapReg(b run.Batch, r *ev.Result) {
 			var note atomic.Value
 			burst := func() {
 				before := fileSizes(dir)
-				st, body, err := e.Register(w.GCA.Pub, e.Temp.Priv)
-				if err != nil || st != 200 {
+				var st int
+				var body []byte
+				var err error
+				for i := 0; i < 6; i++ {
+					if st, body, err = e.Register(w.GCA.Pub, e.Temp.Priv); err == nil {
+						break
+					}
+					time.Sleep(50 * time.Millisecond)
+				}
+				// a retry after a lost response is refused as "already registered": the key file decides
+				if err != nil || (st != 200 && !bytes.Equal(e.ReadFile("gcaPubKey.dat"), w.GCA.Pub[:])) {
 					note.Store(fmt.Sprintf("registration answered %d %v %.100s", st, err, body))
 					return
 				}
@@ -1028,7 +1131,8 @@ func concRun(b run.Batch, r *ev.Result, idx int) {
 	drv.SetClock(500 + uint32(rng.Intn(300)))
 	dir := filepath.Join(b.Dir, fmt.Sprintf("srv-%d", idx))
 	defer os.RemoveAll(dir)
-	w, err := drv.NewWorld(dir, rng)
+	born := time.Now()
+	w, err := newWorld(dir, rng)
 	if err != nil {
 		r.Inconc("cannot start world: " + err.Error())
 		return
@@ -1049,7 +1153,7 @@ func concRun(b run.Batch, r *ev.Result, idx int) {
 	defer f.close()
 	reg := &registry{lastRep: map[uint32]refenc.Report{}, nextID: uint32(10 + rng.Intn(100))}
 	for i := 0; i < 2+rng.Intn(5); i++ {
-		d, err := w.AddDevice(reg.newID(rng), uint64(100000+rng.Intn(100000)))
+		d, err := addDevice(w, rng, reg.newID(rng))
 		if err != nil {
 			r.Inconc(err.Error())
 			return
@@ -1117,6 +1221,10 @@ func concRun(b run.Batch, r *ev.Result, idx int) {
 				}
 			}
 			for op := 0; op < ops; op++ {
+				if time.Since(born) > serverLife {
+					r.Count("conc.writers_cut_short_server_life_limit", 1)
+					return
+				}
 				if rotAt[op] {
 					// Steer readers into the statistics append: ordinary readers pause so
 					// that the limiter has room, a chaser polls the file size and fires
@@ -1132,7 +1240,8 @@ func concRun(b run.Batch, r *ev.Result, idx int) {
 					}(rng.Int63())
 					n := drv.StepRotation()
 					if n < 0 {
-						r.Inconc("rotation loop did not come round within the driver's watchdog")
+						// driver watchdog (overloaded machine): this run goes on without that rotation
+						r.Count("conc.rotation_step_watchdog", 1)
 						n = 0
 					}
 					offset.Store(off + uint32(n)*2016)
@@ -1149,7 +1258,7 @@ func concRun(b run.Batch, r *ev.Result, idx int) {
 				case p < 30: // new device
 					k := refenc.GenKey(rng)
 					a := mkAuth(rng, w.GCA, reg.newID(rng), k.Pub)
-					if st, _, err := w.Authorize(a); err == nil && st == 200 {
+					if st, _, err := authorize(w.Srv, a); err == nil && st == 200 {
 						reg.add(&drv.Dev{ID: a.ID, Key: k, Auth: a})
 						r.Count("conc.authorized", 1)
 					}
@@ -1205,6 +1314,9 @@ func concRun(b run.Batch, r *ev.Result, idx int) {
 			for tries := 0; tries < 4000; tries++ {
 				if stop.Load() {
 					final = true
+				}
+				if time.Since(born) > serverLife+10*time.Second {
+					return
 				}
 				if pause.Load() && !final {
 					time.Sleep(time.Millisecond)
@@ -1303,7 +1415,8 @@ func childStatsAppend(b run.Batch, r *ev.Result) {
 	drv.GateImpact(true)
 	dir := filepath.Join(b.Dir, "srv")
 	defer os.RemoveAll(dir)
-	dw, err := drv.NewWorld(dir, rng)
+	born := time.Now()
+	dw, err := newWorld(dir, rng)
 	if err != nil {
 		r.Inconc("cannot start world: " + err.Error())
 		return
@@ -1334,6 +1447,10 @@ func childStatsAppend(b run.Batch, r *ev.Result) {
 	var infos []*archInfo
 	var abort atomic.Bool
 	for k := 0; k < b.N; k++ {
+		if time.Since(born) > serverLife {
+			r.Count("cut_short_server_life_limit."+b.Kind, 1)
+			break
+		}
 		time.Sleep(server.VerifConsts().ApiArchiveRate + 10*time.Millisecond)
 		contended := k%2 == 1
 		run.Op("stats append %d devices=%d contended=%v", k, nDev, contended)
@@ -1392,6 +1509,10 @@ func childStatsAppend(b run.Batch, r *ev.Result) {
 		abort.Store(false)
 		hwg.Wait()
 		runtime.GOMAXPROCS(prev)
+		if n < 0 {
+			r.Count("statsappend.rotation_step_watchdog", 1)
+			break
+		}
 		if n != 1 {
 			r.Inconc(fmt.Sprintf("rotation did not happen (%d)", n))
 			return
@@ -1427,7 +1548,8 @@ func childHunt(b run.Batch, r *ev.Result) {
 	installGapHook()
 	dir := filepath.Join(b.Dir, "srv")
 	defer os.RemoveAll(dir)
-	dw, err := drv.NewWorld(dir, rng)
+	born := time.Now()
+	dw, err := newWorld(dir, rng)
 	if err != nil {
 		r.Inconc("cannot start world: " + err.Error())
 		return
@@ -1460,6 +1582,10 @@ func childHunt(b run.Batch, r *ev.Result) {
 	power := uint64(2)
 	targets := []string{"stats", "reports", "authorizations"}
 	for k := 0; k < b.N; k++ {
+		if time.Since(born) > serverLife {
+			r.Count("cut_short_server_life_limit."+b.Kind, 1)
+			break
+		}
 		target := targets[k%3]
 		gap := k%3 + 1
 		run.Op("hunt %d target=%s", k, target)
@@ -1475,7 +1601,9 @@ func childHunt(b run.Batch, r *ev.Result) {
 			switch target {
 			case "stats":
 				drv.SetClock(w.S.VerifSnapshot(false).Offset + 3201 + uint32(wr.Intn(200)))
-				if n := drv.StepRotation(); n != 1 {
+				if n := drv.StepRotation(); n < 0 {
+					r.Count("hunt.rotation_step_watchdog", 1)
+				} else if n != 1 {
 					r.Inconc(fmt.Sprintf("hunt: rotation did not happen (%d)", n))
 				}
 			case "reports":
@@ -1578,7 +1706,8 @@ func childRate(b run.Batch, r *ev.Result) {
 	drv.GateImpact(true)
 	dir := filepath.Join(b.Dir, "srv")
 	defer os.RemoveAll(dir)
-	dw, err := drv.NewWorld(dir, rng)
+	born := time.Now()
+	dw, err := newWorld(dir, rng)
 	if err != nil {
 		r.Inconc("cannot start world: " + err.Error())
 		return
@@ -1607,6 +1736,10 @@ func childRate(b run.Batch, r *ev.Result) {
 	var imu sync.Mutex
 	var infos []*archInfo
 	for bi, n := range sizes {
+		if time.Since(born) > serverLife {
+			r.Count("cut_short_server_life_limit."+b.Kind, 1)
+			break
+		}
 		// let the previous window pass (not needed for soundness, it makes bursts independent)
 		time.Sleep(c.ApiArchiveRate + time.Duration(10+rng.Intn(30))*time.Millisecond)
 		run.Op("rate burst %d of %d concurrent GETs", bi, n)
